@@ -24,6 +24,19 @@ TECH = {
     "C17": AI + " (registration simulated on every table size and position incl. other documents' rows, RPC handler, file-format migration) + constant evaluation + reverse-iteration rule" + " + the store-actor handlers and SyncHandle methods evaluated as forwarders (K14b)",
     "C18": AI + " (migrations 001 / 004 over an abstract records table, migrations 002 / 003 over the table list, entry_put, index reader, file-format migration) + must-pass-through per migration + dominance",
 }
+for _p, _t in {
+    "C01": " + one session step of the replica and the opening message evaluated",
+    "C03": " + the validate closure and every PublicKeyStore::public_key implementation evaluated",
+    "C05": " + point lookup and query builder evaluated",
+    "C06": " + crate-wide discarded-result inventory over the storage layer",
+    "C07": " + load_replica_info / new_replica and the doc_set / doc_create handlers evaluated",
+    "C11": " + the namespace-level slot operations evaluated on a nested map model; who-may-shrink the per-peer map",
+    "C12": " + the replica's ingress functions, the reconciliation callbacks, the API event conversion and the doc_drop handler evaluated",
+    "C17": " + who-may-write the peers table",
+    "C18": " + interprocedural ensures(run_migrations) for Store::persistent",
+}.items():
+    TECH[_p] = TECH[_p] + _t
+
 NA = {
     "C04": "quantifies over interleavings of writes, lossy broadcast, aborted sessions and restarts across 2-5 replicas; it has no "
            "structural clause of its own that a static analysis can decide: its only shape-visible part (no replica holds an entry "
